@@ -19,6 +19,9 @@ var exprsC13scope = []string{
 func rootWrites(w []string) int {
 	n := 0
 	for _, x := range w {
+		if len(x) >= 10 && x[:10] == "same-value" {
+			continue // the cell was overwritten with what it held: not a modification
+		}
 		for i := 0; i+4 <= len(x); i++ {
 			if x[i:i+4] == "root" {
 				n++
